@@ -23,7 +23,7 @@ def phash(p):
 CONTINUE, CHANGED, CONTENT, BAD_REQUEST, INCOMPLETE, TOO_LARGE = 95, 68, 69, 128, 136, 141
 BOUNDARY = [0, 1, 15, 16, 17, 31, 32, 33, 63, 64, 65, 127, 128, 129, 255, 256, 257, 511, 512, 513, 1023, 1024, 1025, 1123, 1124, 1125,
             1126, 2047, 2048, 2049, 2148, 2149, 3000, 4096, 4097]
-N_KINDS = 21
+N_KINDS = 21       # kinds drawn at random; 22 (request lost before the server) is used by the stack stream only
 log = logging.getLogger("c05-harness"); log.setLevel(logging.CRITICAL); log.propagate = False; log.addHandler(logging.NullHandler())
 for _n in ("coap", "coap-server"):      # the real Context logs expected assembly errors; keep the check's output clean
     _l = logging.getLogger(_n); _l.setLevel(logging.CRITICAL + 1); _l.addHandler(logging.NullHandler())
@@ -91,6 +91,7 @@ class RefServer:
     def serve(self, rq):
         k = self.step
         mis = self.scf.get("mis")
+        if mis is not None and mis[0] == k and mis[1] == 22: return "fail"      # the request never arrives: nothing happens at the server
         if mis is not None and mis[0] == k and mis[1] in (18, 19):
             # answers with a LARGER block than asked for (size exponent grown by 1 / 2, policy ignored): the block of the larger size that
             # contains the requested offset
@@ -148,6 +149,21 @@ class Remote:
     is_multicast = False; is_multicast_locally = False; scheme = "coap"; hostinfo = "peer"; hostinfo_local = "local"
     uri_base = "coap://peer"; uri_base_local = "coap://local"; blockwise_key = "peer"
     def as_response_address(self): return self
+
+def _default_addr_class():
+    import simnet
+    from aiocoap import interfaces
+    class DefaultAddr(simnet.Addr):
+        # re-bind the two attributes to the library's own properties (simnet.Addr overrides them with constants)
+        maximum_block_size_exp = interfaces.EndpointAddress.maximum_block_size_exp
+        maximum_payload_size = interfaces.EndpointAddress.maximum_payload_size
+    return DefaultAddr
+class _LazyDefaultAddr:
+    _cls = None
+    def __call__(self, name):
+        if _LazyDefaultAddr._cls is None: _LazyDefaultAddr._cls = _default_addr_class()
+        return _LazyDefaultAddr._cls(name)
+DefaultAddr = _LazyDefaultAddr()
 
 class _SubRequest:
     def __init__(self, fut): self.response = fut; self.observation = None
@@ -220,7 +236,11 @@ def run_stack(cc, srv, net):
     from aiocoap import Message, error
     loop = simloop.VLoop(); simnet.patch_random(None, mid0=4000, token0=77)
     ctx, tman, mman, mi = simnet.make_stack(loop)
-    peer = simnet.Addr("srv"); peer.maximum_block_size_exp = cc["mbse"]; peer.maximum_payload_size = cc["mps"]
+    if cc["mbse"] == 6 and cc["mps"] == 1124 and net.get("library_defaults"):
+        # the remote does not set the two attributes: the library's own defaults are used (interfaces.py:153-168, anchored)
+        peer = DefaultAddr("srv")
+    else:
+        peer = simnet.Addr("srv"); peer.maximum_block_size_exp = cc["mbse"]; peer.maximum_payload_size = cc["mps"]
     m = Message(code=aiocoap.PUT, payload=mkbody(cc["len"], cc["seed"])); m.opt.uri_path = ("r",); m.remote = peer
     if cc.get("block2") is not None: m.opt.block2 = tuple(cc["block2"])
     with warnings.catch_warnings():
@@ -228,6 +248,7 @@ def run_stack(cc, srv, net):
         with loop.enter(): req = ctx.request(m)
         loop.drain()
     seen = {}; exchanges = []; fates_req = list(net["req"]); fates_resp = list(net["resp"]); kill = net.get("kill"); steps = 0
+    kill_request = net.get("kill_request"); dead = set()       # kill_request = index of the exchange NO transmission of whose request arrives
     lost = [0]          # transmissions lost in a row; the simulated network loses at most 3 of the 5 transmissions of an exchange
     def fate(l):
         f = l.pop(0) if l else 0
@@ -248,11 +269,15 @@ def run_stack(cc, srv, net):
                 d = Message.decode(raw, peer)
                 if d.mtype not in (aiocoap.CON, aiocoap.NON): continue          # ACK / RST from the client
                 key = d.mid
+                if key in dead: continue
                 if key not in seen:
                     rq = dict(block1=bt_list(d.opt.block1), block2=bt_list(d.opt.block2), size1=d.opt.size1, payload=d.payload)
                     idx = len(exchanges)
+                    if kill_request is not None and idx == kill_request:
+                        exchanges.append([rq, "fail"]); dead.add(key); continue      # the server never sees it
                     r = srv.serve(rq)
                     exchanges.append([rq, r])
+                    if r == "fail": seen[key] = (idx, None); continue                # misbehaviour 13: served, every response lost
                     rm = Message(code=aiocoap.numbers.codes.Code(r["code"]), payload=r["payload"])
                     if r["block1"] is not None: rm.opt.block1 = tuple(r["block1"])
                     if r["block2"] is not None: rm.opt.block2 = tuple(r["block2"])
@@ -260,6 +285,7 @@ def run_stack(cc, srv, net):
                     rm.mtype = aiocoap.ACK; rm.mid = d.mid; rm.token = d.token
                     seen[key] = (idx, rm.encode())
                 idx, rawresp = seen[key]
+                if rawresp is None: continue
                 if kill is not None and idx == kill:
                     exchanges[idx][1] = "fail"; continue
                 g = fate(fates_resp)
@@ -276,6 +302,7 @@ def run_stack(cc, srv, net):
         outcome = {"done": [int(final.code), bt_list(final.opt.block1), bt_list(final.opt.block2), None if et is None else et[0], len(final.payload), phash(final.payload)]}
     real = [c for c in loop.exceptions if "was never retrieved" not in str(c.get("message"))]
     if real: outcome = {"loop_exceptions": [str(c.get("exception") or c.get("message")) for c in real], "outcome": outcome}
+    run_stack.last_remote = [int(peer.maximum_block_size_exp), int(peer.maximum_payload_size)]
     return [tuple(x) for x in exchanges], outcome, final
 
 
@@ -393,7 +420,11 @@ def sequencing_oracle(cc, exchanges, outcome, final, conforming=None):
     if fb2 is None: expect_more = False
     else:
         n, m, szx = fb2; size = 1 << (min(szx, 6) + 4)      # 1024 for BERT: a BERT payload is a whole number of 1024-byte blocks
-        if n != 0: justified = ("first-block2-number-final" if not m else "first-block2-number", "first response names Block2 number %d (more=%s)" % (n, m))
+        app_n = cc["block2"][0] if cc.get("block2") is not None else 0
+        if n != 0 and app_n == 0: justified = ("first-block2-number-final" if not m else "first-block2-number", "first response names Block2 number %d (more=%s)" % (n, m))
+        elif n != 0 and m:
+            # the application itself asked for a later block (NUM %d): a final block is handed over as it is, a non-final one cannot be continued
+            justified = ("first-block2-number", "first response names Block2 number %d with the more-flag; the application asked for block %d" % (n, app_n))
         elif m and len(first["payload"]) % size != 0: justified = ("first-block2-size", "first block of %d bytes with more-flag at size %d" % (len(first["payload"]), size))
         # (a first block that is a whole multiple of its size, or a single final block longer than its size, is taken as sent: the
         #  offsets the client goes on with are computed from the bytes it really has, so nothing is lost, repeated or mixed)
@@ -486,6 +517,8 @@ class C05(fw.Property):
                     "Model/C05Server.v / RefServer: the reference server as a reading of RFC 7959 (two independent implementations compared on every run)",
                     "harness/simloop.py virtual loop, harness/simnet.py fake transport (stack stream)"]
     assumptions = ["responses are what Message.decode can produce (size exponents 0..7); theorems about regular blocks assume exponents 0..6 (no BERT)",
+                   "a remote reports a non-negative maximum_block_size_exp (resp_wf2); with exponent 7 its maximum_payload_size is >= 1024",
+                   "theorem 3 / 13 / 19: the application's own Block2 option, if any, asks for block 0 (an application asking for a later block gets that block, not a whole representation)",
                    "the remote's maximum_payload_size is the same for all remotes of one request"]
     _runs = {}
 
@@ -497,7 +530,8 @@ class C05(fw.Property):
         cap = 40 if (self._tier == "quick" or rng.random() < 0.9) else 300      # number of blocks (the model's list slicing is quadratic)
         while (L >> (mbse + 4)) > cap: mbse += 1
         mps = 1124 if rng.random() < 0.75 else rng.choice([1024, 1152, 2048, 1000, 1100, 64])
-        b2 = None if rng.random() < 0.7 else [0, False, rng.randint(0, 6)]
+        # the application's own Block2 option: mostly a size hint for block 0, sometimes a request for a later block (protocol.py:1094-1097)
+        b2 = None if rng.random() < 0.7 else [rng.choice([0, 0, 0, 0, 1, 2, 5]), False, rng.randint(0, 6)]
         if rng.random() < 0.12:
             # a remote on a reliable transport (RFC 8323): BERT, messages of 1024 * (maximum_payload_size // 1024) bytes
             mbse = 7; mps = rng.choice([1152, 1152, 2048, 2048, 3000, 8192, 1124])
@@ -520,6 +554,7 @@ class C05(fw.Property):
         reps = []
         for i in range(nrep):
             R = rng.choice(BOUNDARY[:-6]) if rng.random() < 0.7 else rng.randint(0, 1500)
+            if cc["len"] <= 600 and rng.random() < 0.25: R = rng.choice(BOUNDARY[-9:])       # multi-kB representations (2047 .. 4097)
             if cc["len"] > 1500 and R > 600: R = rng.choice([0, 5, 16, 100, 600])
             reps.append(dict(etag=(10 + i) if tagged else None, len=R, seed=rng.randint(0, 250)))
         est = max(1, (cc["len"] >> (cc["mbse"] + 4)) + 1)
@@ -574,6 +609,10 @@ class C05(fw.Property):
             b1 = [off // (1 << (szx + 4)), False, szx]
         else: b1 = None
         s2 = rng.randint(0, 6); pos = 0; code = CHANGED if b1 else CONTENT
+        if cc.get("block2") is not None and cc["block2"][0] > 0:
+            # the application asked for a later block: the honest answer starts there
+            s2 = min(s2, cc["block2"][2]); pos = ((cc["block2"][0] << (cc["block2"][2] + 4)) >> (s2 + 4)) << (s2 + 4)
+            if pos >= rep_len: pos = 0
         while True:
             size = 1 << (s2 + 4); more = pos + size < rep_len
             script.append(dict(code=code, block1=b1, block2=[pos // size, more, s2] if (more or pos > 0 or rng.random() < 0.3) else None, etag=etag,
@@ -590,10 +629,10 @@ class C05(fw.Property):
             f = rng.randint(0, 14)
             if f == 0 and r["block1"]: r["block1"][0] = max(0, r["block1"][0] + rng.choice([-1, 1, 2]))
             elif f == 1 and r["block1"]: r["block1"][1] = not r["block1"][1]
-            elif f == 2 and r["block1"]: r["block1"][2] = rng.randint(0, 6)
+            elif f == 2 and r["block1"]: r["block1"][2] = rng.randint(0, 7)
             elif f == 3 and r["block2"]: r["block2"][0] = max(0, r["block2"][0] + rng.choice([-1, 1, 2]))
             elif f == 4 and r["block2"]: r["block2"][1] = not r["block2"][1]
-            elif f == 5 and r["block2"]: r["block2"][2] = rng.randint(0, 6)
+            elif f == 5 and r["block2"]: r["block2"][2] = rng.randint(0, 7)
             elif f == 6: r["etag"] = rng.choice([None, 3, 4, 5])
             elif f == 7 and "plen" in r: r["plen"] = max(r.get("poff", 0), r["plen"] + rng.choice([-1, 1, -16, 16]))
             elif f == 8: r["code"] = rng.choice([CONTINUE, CHANGED, CONTENT, BAD_REQUEST, INCOMPLETE, TOO_LARGE])
@@ -626,8 +665,10 @@ class C05(fw.Property):
                 cc = self._client(rng)
                 if (cc["len"] >> (cc["mbse"] + 4)) > 12: cc["len"] = rng.choice(BOUNDARY[:22])
                 cc["mps"] = 1124
-                sc = self._server(rng, cc); sc["mis"] = None; sc["reps"] = sc["reps"][:1]; sc["rep_at"] = []
-                sc["reps"][0]["len"] = min(sc["reps"][0]["len"], 700)
+                if cc["block2"] is not None: cc["block2"][0] = 0
+                sc = self._server(rng, cc)
+                if rng.random() < 0.7: sc["mis"] = None; sc["reps"] = sc["reps"][:1]; sc["rep_at"] = []     # else: loss / duplication AND a misbehaving or changing server
+                for r_ in sc["reps"]: r_["len"] = min(r_["len"], 700)
                 n = 60
                 def fates(p_drop, p_dup):
                     out = []; run_ = 0
@@ -640,7 +681,10 @@ class C05(fw.Property):
                 mode = rng.random()
                 pd, pu = (0.0, 0.0) if mode < 0.15 else ((0.3, 0.15) if mode < 0.7 else (0.15, 0.4))
                 net = dict(req=fates(pd, pu), resp=fates(pd, pu), kill=None)
-                if rng.random() < 0.2: net["kill"] = rng.randint(0, 6)
+                x = rng.random()
+                if x < 0.15 and sc["mis"] is None: net["kill"] = rng.randint(0, 6)                     # every response of that exchange is lost
+                elif x < 0.3 and sc["mis"] is None: net["kill_request"] = rng.randint(0, 6)     # no transmission of that request arrives
+                if cc["mbse"] == 6 and rng.random() < 0.7: net["library_defaults"] = True
                 yield "stack", dict(client=cc, server=sc, net=net)
             else:
                 cc = self._client(rng)
@@ -683,7 +727,9 @@ class C05(fw.Property):
             srv = RefServer(sc)
             exchanges, outcome, final = run_stack(cc, srv, inp["net"])
             self._runs[fw.jdump([stream, inp])] = (exchanges, outcome, final, srv)
-            return {"requests": [req_view(rq) for rq, _ in exchanges], "outcome": outcome, "bodies": [[len(b), phash(b)] for b in srv.bodies]}
+            res = {"requests": [req_view(rq) for rq, _ in exchanges], "outcome": outcome, "bodies": [[len(b), phash(b)] for b in srv.bodies]}
+            if inp["net"].get("library_defaults") and cc["mbse"] == 6 and cc["mps"] == 1124: res["remote_defaults"] = run_stack.last_remote
+            return res
         if stream == "transfer":
             sc = dict(inp["server"]); sc["reps"] = [dict(etag=r["etag"], data=mkbody(r["len"], r["seed"])) for r in sc["reps"]]
             srv = RefServer(sc)
@@ -705,6 +751,7 @@ class C05(fw.Property):
         if stream in ("transfer", "stack"):
             sc = dict(inp["server"])
             if stream == "stack" and inp["net"].get("kill") is not None: sc["mis"] = [inp["net"]["kill"], 13]   # every response of that exchange is lost
+            if stream == "stack" and inp["net"].get("kill_request") is not None: sc["mis"] = [inp["net"]["kill_request"], 22]   # the request never arrives
             fuel = (cc["len"] >> 4) + sum((r["len"] >> 4) for r in sc["reps"]) + 12
             return "run_ref %s %s %s" % (fw.gnat(fuel), gscfg(sc), gccfg(cc))
         if stream == "scripted":
@@ -725,7 +772,10 @@ class C05(fw.Property):
                     "bt": [[ok(a), ok(b), ok(c), ok(d), list(ok(e))] for a, b, c, d, e in bts]}
         if stream in ("transfer", "stack"):
             reqs, o, bodies = p
-            return {"requests": creqs(reqs), "outcome": coutcome(o), "bodies": [[a, b] for a, b in bodies]}
+            out = {"requests": creqs(reqs), "outcome": coutcome(o), "bodies": [[a, b] for a, b in bodies]}
+            if stream == "stack" and inp["net"].get("library_defaults") and inp["client"]["mbse"] == 6 and inp["client"]["mps"] == 1124:
+                out["remote_defaults"] = [6, 1124]        # interfaces.py:153-168: what the model's c_mbse / c_mps stand for when the remote says nothing
+            return out
         reqs, o = p
         return {"requests": creqs(reqs), "outcome": coutcome(o)}
 
@@ -761,7 +811,13 @@ class C05(fw.Property):
         exchanges, outcome, final, srv = self._runs[key]
         cc = inp["client"]
         conforming = None
-        if stream in ("transfer", "stack") and inp["server"].get("mis") is None:
+        if "remote_defaults" in res:
+            mb, mp = res["remote_defaults"]
+            # hypotheses of theorems 2 / 12 about what a remote says about itself when the transport does not override the library defaults
+            if not (0 <= mb <= 7) or (mb == 7 and mp < 1024) or mp < 0:
+                return ("C05:remote-defaults", "library defaults maximum_block_size_exp=%d maximum_payload_size=%d are outside what the block-wise client can work with" % (mb, mp))
+        app_later = cc.get("block2") is not None and cc["block2"][0] > 0      # the application asked for a later block only: no whole representation expected
+        if stream in ("transfer", "stack") and inp["server"].get("mis") is None and not app_later:
             sc = inp["server"]
             reps = [(r["etag"], mkbody(r["len"], r["seed"])) for r in sc["reps"]]
             tags = [e for e, _ in reps]
